@@ -37,7 +37,9 @@ ASSUMPTIONS = [
     "sample weights are positive (zeros only for the class-frequency "
     "estimators, where they mean 'no observation')",
     "MixtureModelClassifier gets n_samples >= max(2, n_components) rows or "
-    "zero rows, or a prefitted mixture (scikit-learn precondition)",
+    "zero rows, or a prefitted mixture (scikit-learn precondition); a "
+    "ValueError raised inside sklearn.mixture (collapsed samples) is a "
+    "third-party rejection, labelled and not counted as a violation",
     "SklearnClassifier fallback branch (is_fitted_ == False): only membership "
     "of predict in classes_ and a positive probability are asserted",
     "partial_fit paths and SlidingWindowClassifier chunking are exercised "
@@ -500,6 +502,15 @@ def _estimator_row_sums(clf, cfg, Xq):
     return np.asarray(P, dtype=float).sum(axis=1)
 
 
+def _raised_in_sklearn_mixture(exc):
+    import traceback
+    if not isinstance(exc, ValueError):
+        return False
+    tb = traceback.extract_tb(exc.__traceback__)
+    return bool(tb) and "/sklearn/mixture/" in tb[-1].filename.replace(
+        "\\", "/")
+
+
 def _prior_of(cfg):
     if cfg["kind"] in clfreg.CLASS_FREQUENCY_KINDS:
         return cfg["params"].get("class_prior", 0.0)
@@ -605,6 +616,11 @@ def run_case(case):
     clf = clfreg.build(cfg)
     ok, r = guarded(_fit, clf, case, X, y, w)
     if not ok:
+        if kind == "MixtureModelClassifier" and _raised_in_sklearn_mixture(r):
+            # scikit-learn's own precondition (collapsed / too few samples
+            # for the requested components), propagated unchanged
+            lab.append("mixture_rejected_data")
+            return done()
         viol.append(exc_violation(comp, r, trig, "fit"))
         return done()
 
@@ -706,8 +722,8 @@ def run_case(case):
             applies = False  # one-vs-rest SGD need not separate the clusters
         if kind == "SlidingWindowClassifier" and len(eff) != n:
             applies = False
-        if fallback:
-            applies = False
+        if fallback or nan_est:
+            applies = False  # label distribution, independent of the query
         if applies and kind == "MixtureModelClassifier":
             y_idx = case["y"]
             ok, sep = guarded(_mixture_separates, clf, case["X"], y_idx,
